@@ -17,6 +17,10 @@ def run(ctx):
     ca.normal_pair(ctx)
     ctx.rule("R-LOSE-ORDER", "on every losing path the state leaves NORMAL before a frame is sent", floor=2)
     ca.lose_order(ctx)
+    ctx.rule("R-CLAIM-TABLE", "a contending claim for the held address from a lower NAME is acted on in every operational CA (the address is lost then)", floor=5)
+    ca.claim_table(ctx)
+    ctx.rule("R-NORMAL-ANNOUNCED", "entering NORMAL keeps announced == held (the losing branch claims announced + 1)", floor=2)
+    ca.normal_announced(ctx)
     # below the CA: the data link layers put the source address they were given into the identifier - directly, or (FD multi-PG
     # buffers) after recovering it from the buffer key
     from rules import transport as T, layout as LY
